@@ -252,6 +252,12 @@ class Interp:
             if c[1] not in getattr(self, 'named_conds', {}):
                 raise NotImplementedError('unbound condition name (scenario error)')
             return self.named_conds[c[1]]
+        if h == 'delay':
+            return time + self.tv(c[1])
+        if h == 'and':
+            return self.cond(c[1]) & self.cond(c[2])
+        if h == 'or':
+            return self.cond(c[1]) | self.cond(c[2])
         if h == 'all':
             return All(*[self.cond(x) for x in c[1:]])
         if h == 'any':
@@ -304,7 +310,11 @@ class Interp:
         elif h == 'await':
             c = self.cond(s[1])
             k = {'after': 1, 'moment': 2, 'before': 3, 'eternity': 4, 'instant': 5}.get(s[1][0], 9)
-            self.emit(label, 'abegin', [k] + (tpair(s[1][1], self.kind) if k in (1, 2, 3) else [0, 1]))
+            from usim._primitives.timing import Delay
+            if isinstance(c, Delay) and s[1][0] == 'ref':
+                self.emit(label, 'abegin', [0] + tpair(c.duration, self.kind))      # (a kept `time + d` object: a delay from now)
+            else:
+                self.emit(label, 'abegin', [k] + (tpair(s[1][1], self.kind) if k in (1, 2, 3) else [0, 1]))
             self.pending_awaits[label] = self.pending_awaits.get(label, []) + [c]
             try:
                 await c
@@ -376,7 +386,11 @@ class Interp:
             if t is None:
                 self.emit(label, 'unbound')
             else:
-                v = await t
+                self.pending_awaits[label] = self.pending_awaits.get(label, []) + [t.done]
+                try:
+                    v = await t
+                finally:
+                    self.pending_awaits[label].pop()
                 self.emit(label, 'taskret', [1000 + self.task_index[id(t)], v if v is not None else 0])
         elif h == 'awaitscope':
             sc = self.scopes.get(s[1])
@@ -393,6 +407,8 @@ class Interp:
         elif h == 'defcond':
             self.named_conds = getattr(self, 'named_conds', {})
             self.named_conds[s[1]] = self.cond(s[2])
+            self.named_defs = getattr(self, 'named_defs', {})
+            self.named_defs[s[1]] = s[2]
         elif h == 'raise':
             e = self.classes[s[1]]()
             e.verif_label = self.user_raises
@@ -929,6 +945,12 @@ class Interp:
             return any(self.eval_spec(x) for x in c[1:])
         if h == 'inv':
             return not self.eval_spec(c[1])
+        if h in ('and', 'or'):
+            a, b = self.eval_spec(c[1]), self.eval_spec(c[2])
+            return (a and b) if h == 'and' else (a or b)
+        if h == 'ref' and c[1] in getattr(self, 'named_defs', {}) and self.named_defs[c[1]][0] != 'delay':
+            # a condition kept in a variable means what its defining expression means - whatever happened to the object
+            return self.eval_spec(self.named_defs[c[1]])
         return bool(self.cond(c))
 
     def order_of(self, label):
@@ -976,6 +998,13 @@ class Interp:
                 await self.block(i, prog)
             except _Ret as r:
                 return r.args[0]
+            except GeneratorExit:
+                raise
+            except BaseException as e:
+                # what escapes a root activity is what run() has to report (with `till`, roots are tasks of a hidden scope)
+                if self.fields.get('till', [None])[0] is None:
+                    self.emit(i, 'rootexc', self.exn_code(e))
+                raise
         finally:
             self.finished.add(i)
 
@@ -1045,10 +1074,11 @@ class Interp:
         if outcome == 'ok':
             # waiters whose condition holds although nothing will wake them any more
             from usim._core.handler import __USIM_STATE__
+            from usim._primitives.timing import Delay as _Delay
             with __USIM_STATE__.assign(loop):
                 for lb in sorted(self.pending_awaits, key=lambda x: (self.order_of(x))):
                     for c in self.pending_awaits[lb]:
-                        if c:
+                        if c and not isinstance(c, _Delay):
                             self.events.append('%s:%d:%d:stuck:' % (t2s(loop.time, self.kind), loop.turn, lb))
         self.ended = True
         nl = self.num('locks', 0)
